@@ -1,5 +1,5 @@
 (* C09 proofs, part 10: concrete files.
-   - what the code as it is now (cfg_now) still falsifies: a locator rank used as a size, role lists with fillers;
+   - what the code as it is now (cfg_pre5) still falsifies: a locator rank used as a size, role lists with fillers;
    - regression: the files that broke the code before the fixes C09_1..4 (cfg_asis) and their clean failure now;
    - non-vacuity: valid files load to the same objects under the three configurations. *)
 From Coq Require Import List ZArith QArith Bool Lia.
@@ -9,28 +9,28 @@ Local Open Scope Z_scope.
 
 (* fuel |f|+1, 256 MB per request (the child process of the check) *)
 Definition asis_env (f : list Z) : env := mkEnv cfg_asis 268435456 (S (length f)).
-Definition now_env_of (f : list Z) : env := mkEnv cfg_now 268435456 (S (length f)).
+Definition pre5_env (f : list Z) : env := mkEnv cfg_pre5 268435456 (S (length f)).
 Definition fix_env (f : list Z) : env := mkEnv cfg_fixed 268435456 (S (length f)).
 
 (* ---------------------------------------------------------------- the code as it is now *)
-Lemma now_locsize : load_Db (now_env_of w_locsize) w_locsize = Crashed (Throw 1 16).
+Lemma now_locsize : load_Db (pre5_env w_locsize) w_locsize = Crashed (Throw 1 16).
 Proof. vm_compute. reflexivity. Qed.
 (* below the cap the request is served: 400 kB of role list for a 21-byte file *)
-Lemma now_locsize_ghost : alloc_bound (flen w_locghost) < ghost_of (load_Db (now_env_of w_locghost) w_locghost).
+Lemma now_locsize_ghost : alloc_bound (flen w_locghost) < ghost_of (load_Db (pre5_env w_locghost) w_locghost).
 Proof. vm_compute. reflexivity. Qed.
-Lemma now_locrank : exists d g, load_Db (now_env_of w_locrank) w_locrank = Loaded d g /\ ~ wf_db d.
+Lemma now_locrank : exists d g, load_Db (pre5_env w_locrank) w_locrank = Loaded d g /\ ~ wf_db d.
 Proof.
   eexists. eexists. split; [vm_compute; reflexivity|].
   intros H. apply wf_db_b_spec in H. vm_compute in H. discriminate.
 Qed.
 (* "NA x2": column 0 has no role in the file and holds rank 1 of the coordinates in the object *)
-Lemma now_filler : exists d g, load_Db (now_env_of w_filler) w_filler = Loaded d g /\ nth 0 (d_loc d) [] = [0; 1].
+Lemma now_filler : exists d g, load_Db (pre5_env w_filler) w_filler = Loaded d g /\ nth 0 (d_loc d) [] = [0; 1].
 Proof. eexists. eexists. split; vm_compute; reflexivity. Qed.
 (* with fixes/C09_5 these files are refused, out-of-order declarations still load *)
 Lemma fixed_on_locators :
   load_Db (fix_env w_locsize) w_locsize = Failed 72 /\ load_Db (fix_env w_locrank) w_locrank = Failed 72 /\
   load_Db (fix_env w_filler) w_filler = Failed 240 /\ load_Db (fix_env w_rank_dup) w_rank_dup = Failed 236 /\
-  load_Db (fix_env v_db_unordered) v_db_unordered = load_Db (now_env_of v_db_unordered) v_db_unordered /\
+  load_Db (fix_env v_db_unordered) v_db_unordered = load_Db (pre5_env v_db_unordered) v_db_unordered /\
   exists d g, load_Db (fix_env v_db_unordered) v_db_unordered = Loaded d g /\ nth 0 (d_loc d) [] = [1; 0] /\ wf_db_b d = true.
 Proof. vm_compute. repeat split; try reflexivity. eexists. eexists. repeat split; reflexivity. Qed.
 
@@ -50,26 +50,46 @@ Lemma asis_wf_witnesses :
   (exists x g, load_DbGrid (asis_env w_gridtrunc) w_gridtrunc = Loaded x g /\ wf_dbgrid_b x = false).
 Proof. vm_compute. split; eexists; eexists; split; reflexivity. Qed.
 Lemma now_on_witnesses :
-  load_Db (now_env_of w_store_inplace) w_store_inplace = Failed 72 /\
-  load_Db (now_env_of w_store_vec) w_store_vec = Failed 40 /\
-  load_PolyLine2D (now_env_of w_store_poly) w_store_poly = Failed 32 /\
-  load_DbGrid (now_env_of w_gridread) w_gridread = Failed 124 /\
-  load_Db (now_env_of w_alloc) w_alloc = Failed 0 /\
-  load_Db (now_env_of w_negative) w_negative = Failed 0 /\
-  load_Table (now_env_of w_assert) w_assert = Failed 0 /\
-  load_Polygons (now_env_of w_hang) w_hang = Failed 0 /\
-  load_Db (now_env_of w_negnech) w_negnech = Failed 0 /\
-  load_DbGrid (now_env_of w_gridtrunc) w_gridtrunc = Failed 124.
+  load_Db (pre5_env w_store_inplace) w_store_inplace = Failed 72 /\
+  load_Db (pre5_env w_store_vec) w_store_vec = Failed 40 /\
+  load_PolyLine2D (pre5_env w_store_poly) w_store_poly = Failed 32 /\
+  load_DbGrid (pre5_env w_gridread) w_gridread = Failed 124 /\
+  load_Db (pre5_env w_alloc) w_alloc = Failed 0 /\
+  load_Db (pre5_env w_negative) w_negative = Failed 0 /\
+  load_Table (pre5_env w_assert) w_assert = Failed 0 /\
+  load_Polygons (pre5_env w_hang) w_hang = Failed 0 /\
+  load_Db (pre5_env w_negnech) w_negnech = Failed 0 /\
+  load_DbGrid (pre5_env w_gridtrunc) w_gridtrunc = Failed 124.
 Proof. vm_compute. repeat split; reflexivity. Qed.
 
 (* ---------------------------------------------------------------- valid files *)
 Lemma valid_files_load :
-  (exists d g, load_Db (now_env_of v_db) v_db = Loaded d g /\ load_Db (fix_env v_db) v_db = Loaded d g /\ load_Db (asis_env v_db) v_db = Loaded d g /\ d_ncol d = 2 /\ d_nech d = 3 /\ wf_db_b d = true) /\
-  (exists x g, load_DbGrid (now_env_of v_dbgrid) v_dbgrid = Loaded x g /\ load_DbGrid (fix_env v_dbgrid) v_dbgrid = Loaded x g /\ load_DbGrid (asis_env v_dbgrid) v_dbgrid = Loaded x g /\ d_nech (dg_db x) = 4 /\ wf_dbgrid_b x = true) /\
-  (exists t g, load_Table (now_env_of v_table) v_table = Loaded t g /\ load_Table (asis_env v_table) v_table = Loaded t g /\ t_nrows t = 2 /\ wf_table_b t = true) /\
-  (exists l g, load_Polygons (now_env_of v_polygons) v_polygons = Loaded l g /\ load_Polygons (asis_env v_polygons) v_polygons = Loaded l g /\ length l = 1%nat /\ wf_polygons_b l = true).
+  (exists d g, load_Db (pre5_env v_db) v_db = Loaded d g /\ load_Db (fix_env v_db) v_db = Loaded d g /\ load_Db (asis_env v_db) v_db = Loaded d g /\ d_ncol d = 2 /\ d_nech d = 3 /\ wf_db_b d = true) /\
+  (exists x g, load_DbGrid (pre5_env v_dbgrid) v_dbgrid = Loaded x g /\ load_DbGrid (fix_env v_dbgrid) v_dbgrid = Loaded x g /\ load_DbGrid (asis_env v_dbgrid) v_dbgrid = Loaded x g /\ d_nech (dg_db x) = 4 /\ wf_dbgrid_b x = true) /\
+  (exists t g, load_Table (pre5_env v_table) v_table = Loaded t g /\ load_Table (asis_env v_table) v_table = Loaded t g /\ t_nrows t = 2 /\ wf_table_b t = true) /\
+  (exists l g, load_Polygons (pre5_env v_polygons) v_polygons = Loaded l g /\ load_Polygons (asis_env v_polygons) v_polygons = Loaded l g /\ length l = 1%nat /\ wf_polygons_b l = true).
 Proof. vm_compute. repeat split; repeat eexists; reflexivity. Qed.
 Lemma envs_satisfy_hyps :
-  now_env (now_env_of v_db) v_db (alloc_bound_grid (flen v_db)) /\ fixed_env (fix_env v_dbgrid) v_dbgrid (alloc_bound_grid (flen v_dbgrid)) /\
+  now_env (pre5_env v_db) v_db (alloc_bound_grid (flen v_db)) /\ fixed_env (fix_env v_dbgrid) v_dbgrid (alloc_bound_grid (flen v_dbgrid)) /\
   flen v_db < 2147483648 /\ flen v_dbgrid < 2147483648.
 Proof. vm_compute. repeat split; try reflexivity; intro H; discriminate H. Qed.
+
+(* ---------------------------------------------------------------- the code as it is now (cfg_fixed) *)
+Lemma fixed_on_witnesses2 :
+  load_Db (fix_env w_store_inplace) w_store_inplace = Failed 72 /\
+  load_Db (fix_env w_store_vec) w_store_vec = Failed 40 /\
+  load_PolyLine2D (fix_env w_store_poly) w_store_poly = Failed 32 /\
+  load_DbGrid (fix_env w_gridread) w_gridread = Failed 124 /\
+  load_Db (fix_env w_alloc) w_alloc = Failed 0 /\
+  load_Db (fix_env w_negative) w_negative = Failed 0 /\
+  load_Table (fix_env w_assert) w_assert = Failed 0 /\
+  load_Polygons (fix_env w_hang) w_hang = Failed 0 /\
+  load_Db (fix_env w_negnech) w_negnech = Failed 0 /\
+  load_DbGrid (fix_env w_gridtrunc) w_gridtrunc = Failed 124.
+Proof. vm_compute. repeat split; reflexivity. Qed.
+Lemma valid_files_load2 :
+  (exists d g, load_Db (fix_env v_db) v_db = Loaded d g /\ load_Db (asis_env v_db) v_db = Loaded d g /\ d_ncol d = 2 /\ d_nech d = 3 /\ wf_db_b d = true) /\
+  (exists x g, load_DbGrid (fix_env v_dbgrid) v_dbgrid = Loaded x g /\ load_DbGrid (asis_env v_dbgrid) v_dbgrid = Loaded x g /\ d_nech (dg_db x) = 4 /\ wf_dbgrid_b x = true) /\
+  (exists t g, load_Table (fix_env v_table) v_table = Loaded t g /\ load_Table (asis_env v_table) v_table = Loaded t g /\ t_nrows t = 2 /\ wf_table_b t = true) /\
+  (exists l g, load_Polygons (fix_env v_polygons) v_polygons = Loaded l g /\ load_Polygons (asis_env v_polygons) v_polygons = Loaded l g /\ length l = 1%nat /\ wf_polygons_b l = true).
+Proof. vm_compute. repeat split; repeat eexists; reflexivity. Qed.
